@@ -852,18 +852,30 @@ Definition reg_premises (ops : list regop) : bool :=
    Handle the implementation refused (Registry.cs_run_skip; RegistryProofs.run_skip_is_run_of_accepted: the state is
    that of the history without these operations, to which theorem C11 applies). *)
 Definition reg_run_skip (s : cstate) (ops : list sexp) (k anom : nat) : cstate * option (nat * failure) * nat :=
-  cs_run_skip s (map (fun x => (Z.eqb (sx_int (sx_nth 0 x)) 5, sx_rop_reg x)) ops) k anom.
+  (* (6 ...) is a request served in the middle of the history: no registration *)
+  cs_run_skip s (map (fun x => (Z.eqb (sx_int (sx_nth 0 x)) 5, sx_rop_reg x))
+                     (filter (fun x => negb (Z.eqb (sx_int (sx_nth 0 x)) 6)) ops)) k anom.
 
 Definition run_reg (c impl : sexp) : sexp :=
   let O := sx_oracles (sx_nth 0 c) in
   let rt := if Z.eqb (sx_int (sx_nth 1 c)) 0 then Curly else Jsr311 in
-  let ops := map sx_rop_reg (sx_list (sx_nth 2 c)) in
+  let ops := map sx_rop_reg (filter (fun x => negb (Z.eqb (sx_int (sx_nth 0 x)) 6)) (sx_list (sx_nth 2 c))) in
   let probes := sx_list (sx_nth 3 c) in
   let '(s, fail, anomalies) := reg_run_skip cs_init (sx_list (sx_nth 2 c)) 0 0 in
   let '(sf, ffail) := cs_fresh s in
   let ask st p :=
       let req := {| rq_method := sx_str (sx_nth 1 p); rq_path := sx_str (sx_nth 2 p); rq_headers := []; rq_clen := 0 |} in
-      reg_answer_obs (if Z.eqb (sx_int (sx_nth 0 p)) 0 then serve_dispatch O rt st req else serve_http O rt st req) in
+      let entry := sx_int (sx_nth 0 p) in
+      if Z.leb 2 entry then
+        (* a preflight: the container's CORS filter answers it itself (200, nothing runs) wherever dispatch is reached *)
+        match (if Z.eqb entry 2 then serve_dispatch O rt st req else serve_http O rt st req) with
+        | GRouted _ => Lst [I 200; I 0; A []]
+        | GPlain id => if Z.odd id then Lst [I 200; I 0; A []]    (* HandleWithFilter: the container filters run first *)
+                       else reg_answer_obs (GPlain id)
+        | other => reg_answer_obs other
+        end
+      else
+      reg_answer_obs (if Z.eqb entry 0 then serve_dispatch O rt st req else serve_http O rt st req) in
   let m_obs := Lst [ I (match fail with Some (k, _) => Z.of_nat k | None => (-1)%Z end);
                      Lst (map (ask s) probes); Lst (map (ask sf) probes);
                      I (match ffail with Some _ => 1 | None => 0 end)%Z; I 1; of_nat anomalies ] in
@@ -880,7 +892,8 @@ Definition run_reg (c impl : sexp) : sexp :=
         Lst [ verdict "premises_of_C11" (reg_premises ops);
               verdict "has_plain_handler" (existsb (fun o => match o with RHandle _ _ => true | _ => false end) ops);
               verdict "has_route_change" (existsb (fun o => match o with RRoute _ _ | RRemoveRoute _ _ _ => true | _ => false end) ops);
-              verdict "has_refused_handle" (existsb (fun x => Z.eqb (sx_int (sx_nth 0 x)) 5) (sx_list (sx_nth 2 c))) ] ].
+              verdict "has_refused_handle" (existsb (fun x => Z.eqb (sx_int (sx_nth 0 x)) 5) (sx_list (sx_nth 2 c)));
+              verdict "preflight_in_the_middle" (existsb (fun x => Z.eqb (sx_int (sx_nth 0 x)) 6) (sx_list (sx_nth 2 c))) ] ].
 
 (* ---- domain "ent" (C16, C13) ----
    case: (oracles provider cap dflt mode requests); request = (ct ce value codec pretty enc broken (body gunzip inflate dec))
